@@ -451,7 +451,7 @@ def injected_history(ctx, spec):
                   reordering=spec['dynamic'])
         menu = dict(build=6, apply=8, ite=3, quantify=2, let_const=1,
                     let_rename=1, let_compose=2, add_expr=2, dup=1, drop=6,
-                    gc=4, sift=1, reorder_to=1,
+                    gc=4, sift=1, reorder_to=1, tight=1,
                     swap=2 if kind == 'bdd' else 0,
                     fop=3 if kind == 'autoref' else 0,
                     traverse=1 if kind == 'autoref' else 0,
